@@ -56,20 +56,25 @@ PARTIAL = [
     "by the dense oracle only; the Lean theorems speak about structure, leg labels and shapes",
     "QR / SVD factorisation contracts (Q.R = M, U.S.Vh = M untruncated) are external; validated on every live "
     "split by the dense comparison",
-    "proved at the graph level (ops_preserve_wf): one root, symmetric links, tree, equal key sets, Node invariant, "
-    "recorded shape = stored shape, for arbitrary admissible histories. NOT part of the proved invariant: that the "
-    "two axes of a bond carry the same label / dimension at both ends and that the open labels of the whole "
-    "network stay a permutation of the original ones (label placement is proved per node: "
-    "create_contracted_node_spec, split_*_node_*_spec); globally these are checked by correspondence (open-label "
-    "order and shapes after every op) and by the dense oracle",
-    "progress (admissible calls never raise) is not proved: the theorems are of the form 'if the model call "
-    "returns a network, it is well-formed'; the harness reports every exception on an admissible call",
+    "proved at the graph level (ops_preserve_wf: one root, symmetric links, tree, equal key sets, Node invariant, "
+    "recorded shape = stored shape) and at the label level (ops_preserve_labels / built_networks_labels: the two "
+    "ends of every bond carry the same label and dimension; contraction_labels_invariant: the open axes of the "
+    "network after any history of edits are a permutation of the initial ones; per operation "
+    "contract_nodes_labels, split_nodes_labels, insert_identity_labels, ...) for arbitrary admissible histories. "
+    "Labels are ghost data of the model: what ties them to the library is the correspondence stage (open-label "
+    "order and shapes after every op) and the dense oracle",
+    "progress (admissible calls never raise) is proved for accesses, contract_nodes on adjacent nodes and "
+    "split_nodes with leg specifications that partition the legs (admissible_never_errors, computable test "
+    "admissibleB); for insert_identity, change_node_identifier, replace_tensor and add_child_to_parent the "
+    "theorems have the form 'if the model call returns a network, ...'; the harness reports every exception "
+    "on an admissible call",
     "child order after split_nodes / insert_identity is not documented: compared with the model "
     "(correspondence), not demanded by the oracle",
-    "composite edits: proved are well-formedness, root, identifiers, parents, children (with the exact child order) "
-    "(composite_edits_preserve_tree, recursive_truncation_restores_structure, Ptn.C06.*_structure_partial, "
-    "Ptn.C10.*_structure_partial); that every node keeps its open legs in order and that only bond dimensions "
-    "change is NOT proved - checked by the comp stream (oracle on the library, correspondence with the model)",
+    "composite edits: proved on the model are well-formedness, label invariant, root, identifiers, parents, "
+    "children (with the exact child order) and that every node keeps exactly its open axes - labels, order, "
+    "dimensions (composite_edits_preserve_labels, recursive_truncation_preserves_labels, Ptn.C06.*_structure, "
+    "Ptn.C10.*_structure); NOT modelled: the chosen bond dimensions, the order of the canonicalisation moves "
+    "(passed in by the harness); the comp stream checks the model against the library (oracle + correspondence)",
     "behaviour on inadmissible arguments is only sampled by the malformed stream (must raise; network "
     "unchanged where the exception precedes every mutation)",
 ]
